@@ -518,6 +518,7 @@ func Run(c *hx.Ctx) error {
 	// the password cache across password changes; the zero-user bootstrap
 	cacheOps(c, rng, thorough)
 	bootOps(c, stmts)
+	flightOps(c)
 	if thorough && c.Arg("blackbox", "1") != "0" {
 		bbEnv := newEnv(baseWorld(""), cfgSpec{pprof: true, ext: true}, false)
 		if err := blackbox(c, bbEnv.liveRoutes()); err != nil {
